@@ -1,7 +1,7 @@
 """C13 — array set functions implement multiset semantics over identical elements."""
 from collections import Counter
 from .. import gen
-from . import common
+from . import common, sizes
 
 SPEC_THEOREM = 'Props/C13: distinct keeps first occurrences and is idempotent; intersection/except partition the first list; overlap iff intersection non-empty; C13_set_functions_bytes_*: the offset-faithful walkers of SetWalk.v return buf ++ enc (tree result) on encodings'
 TRUSTED = ['Coq 8.16.1 kernel', 'translator', 'extraction + OCaml driver', 'Rust harness', 'model SetOps.v (identity = identical entry word and payload); SetWalk.v (offset-faithful array_*_jsonb, refinement proved on encodings, tied to the code by correspondence including corrupt buffers)']
@@ -40,6 +40,32 @@ def generate(ctx):
                 ids = [ctx.add('array_distinct %s' % eb).id, ctx.add('array_intersection %s %s' % (eb, ea)).id,
                        ctx.add('array_except %s %s' % (eb, ea)).id, ctx.add('array_overlap %s %s' % (eb, ea)).id]
                 ctx.trials.append((b, a, ids))
+    # arrays of 255 .. 1000 elements (with repeats) against short lists made of their first / middle / last elements and against
+    # themselves, and elements that are strings of 255 .. 65536 bytes differing only in the last byte (sizes.py; second review H2)
+    for lab, v in sizes.container_docs():
+        if v[0] != 'a':
+            continue
+        n = len(v[1])
+        fml = [x for _, x in sizes.first_mid_last(v)]
+        bs = [('a', fml), ('a', fml[::-1] + fml), ('a', [fml[-1]] * 3 + [('s', b'absent')]), ('a', []), fml[-1]] + ([v] if n <= 257 else [])
+        for b in bs:
+            ea, eb = gen.hexarg(gen.enc(v)), gen.hexarg(gen.enc(b))
+            ids = [ctx.add('array_distinct %s' % ea).id, ctx.add('array_intersection %s %s' % (ea, eb)).id,
+                   ctx.add('array_except %s %s' % (ea, eb)).id, ctx.add('array_overlap %s %s' % (ea, eb)).id]
+            ctx.trials.append((v, b, ids))
+            if b is not v:
+                ids = [ctx.add('array_distinct %s' % eb).id, ctx.add('array_intersection %s %s' % (eb, ea)).id,
+                       ctx.add('array_except %s %s' % (eb, ea)).id, ctx.add('array_overlap %s %s' % (eb, ea)).id]
+                ctx.trials.append((b, v, ids))
+    for n in sizes.STR_SIZES:
+        s = ('s', sizes.text(n))
+        s2, s3 = sizes.end_mutants(s)[:2]
+        a = ('a', [s, ('u', 1), s2, s, s3, s2])
+        for b in (('a', [s2, s2]), ('a', [s3, s]), ('a', [('s', s[1][:-1])]), s, a):
+            ea, eb = gen.hexarg(gen.enc(a)), gen.hexarg(gen.enc(b))
+            ids = [ctx.add('array_distinct %s' % ea).id, ctx.add('array_intersection %s %s' % (ea, eb)).id,
+                   ctx.add('array_except %s %s' % (ea, eb)).id, ctx.add('array_overlap %s %s' % (ea, eb)).id]
+            ctx.trials.append((a, b, ids))
     for _ in range(ctx.scale(1200, 50000)):
         c = r.random()
         base = pool + [ctx.g.value(depth=2, finite=False) for _ in range(3)]
@@ -84,7 +110,6 @@ def malformed(ctx):
     # the four walkers on buffers that are NOT valid encodings: C13 says nothing about them, the offset-faithful model
     # (SetWalk.v) does -- value, error or panic; this stream only feeds the correspondence tie
     r = ctx.rng
-    ctx.open_classes.add('skipped-allocation')
     small = [(a, b) for a, b, _ in ctx.trials if 8 <= len(gen.enc(a)) <= 80 and len(gen.enc(b)) <= 80]
     for a, b in r.sample(small, min(len(small), ctx.scale(120, 3000))):
         ea, eb = gen.enc(a), gen.enc(b)
@@ -104,13 +129,6 @@ def malformed(ctx):
         for _ in range(4):
             op = r.choice(['array_intersection', 'array_except', 'array_overlap'])
             ctx.add('%s %s %s' % (op, gen.hexarg(r.choice(mutants(ctx, ea, 6))), gen.hexarg(r.choice(mutants(ctx, eb, 6)))), kind='malformed')
-
-
-def classify(ctx, c, io, mo):
-    # the harness process died on a corrupt buffer (allocation driven by a corrupted count): not judged
-    if c.kind == 'malformed' and io.startswith('abort:'):
-        return 'skipped-allocation'
-    return None
 
 
 def judge(ctx):
@@ -170,6 +188,7 @@ def judge(ctx):
     from .. import core
     lines = ['d%d array_distinct %s' % (k, d[3:]) for k, (d, _) in enumerate(again)]
     out = core.run_cases(core.HARNESS_BIN, lines, 'C13-idem')
+    core.require_outcomes(out, ['d%d' % k for k in range(len(again))], 'C13 idempotence re-run')
     for k, (d, case) in enumerate(again):
         if out.get('d%d' % k) != d:
             ctx.violate('distinct is not idempotent', case=case, observed=[d, out.get('d%d' % k)])
